@@ -210,7 +210,7 @@ def run_shard(ctx):
                 continue
             HISTORY['other'] = None
             if history:
-                others = [o for o in spans.catalogue(n + 1, origin=2) + spans.catalogue(max(n - 1, 1), origin=-1) if o.kind == spec.kind]
+                others = [o for o in spans.catalogue(n + 1, origin=2) + spans.catalogue(max(n - 1, 1), origin=-1) + spans.catalogue(n, origin=1) + spans.catalogue(n, origin=2) if o.kind == spec.kind]
                 if not others:
                     continue
                 HISTORY['other'] = others[(si + ctx.seed) % len(others)]
@@ -297,6 +297,7 @@ def run_shard(ctx):
     HISTORY['other'] = None
     repeated_labels(ctx, Model)
     empty_span(ctx, Model)
+    no_variables(ctx)
     parser_models(ctx)
 
 
@@ -396,6 +397,44 @@ def empty_span(ctx, Model):
         ctx.count('label_errors_checked')
         if r[0] != 'exc' or r[1] != 'SolutionError':
             ctx.violation('empty-span', f'solve() on an empty span ({type(span).__name__}): expected SolutionError, got {r}', {'kind': 'empty', 'span': repr(span)})
+
+
+def no_variables(ctx):
+    """Objects with periods but no variables of their own (a class built from an empty or comments-only script, a hand-written
+    model that works through its hooks, a linker without variables): an *empty span* is what raises SolutionError - here solve()
+    visits every period, like the ordered loop of solve_t()."""
+    import fsic
+    log = []
+
+    class Hooks(fsic.BaseModel):
+        def solve_t_before(self, t, **kw):
+            log.append(('before', t))
+
+        def solve_t_after(self, t, **kw):
+            log.append(('after', t))
+
+    makers = {'empty-script': lambda span: fsic.build_model(fsic.parse_model(''))(span),
+              'comments-only': lambda span: fsic.build_model(fsic.parse_model('# nothing yet\n'))(span),
+              'hooks-only': lambda span: Hooks(span),
+              'linker-without-variables': lambda span: fsic.BaseLinker({'a': fsic.build_model([])(span)})}
+    for k, (kind, mk) in enumerate(makers.items()):
+        if not ctx.mine(k):
+            continue
+        for span in (range(4), ['a', 'b', 'c'], np.arange(2000, 2003), (5,)):
+            case = dict(kind='no-variables', model=kind, span=repr(span))
+            ctx.evaluation(case, nontrivial=True, sample=case)
+            A, B = mk(span), mk(span)
+            del log[:]
+            ra = call(A.solve)
+            la = list(log)
+            del log[:]
+            flags = [call(B.solve_t, p) for p in range(len(span))]
+            ctx.count('twin_runs_compared')
+            want = ('ret', (list(span), list(range(len(span))), [f[1] if f[0] == 'ret' else f for f in flags]))
+            ok = ra[0] == 'ret' and [list(ra[1][0]), list(ra[1][1]), list(ra[1][2])] == [want[1][0], want[1][1], want[1][2]] and la == list(log) and \
+                list(A.status) == list(B.status) and list(A.iterations) == list(B.iterations)
+            if not ok:
+                ctx.violation('solve-vs-loop-outcome', f'{kind} over {span!r} (periods, no variables): solve() -> {ra}, statuses {list(A.status)}; the ordered loop of solve_t -> {want}, statuses {list(B.status)}', case)
 
 
 def parser_models(ctx):
